@@ -200,4 +200,4 @@ def _obligations():
 
 
 def obligations():
-    return _obligations() + [labels_obligation("C11"), effects_obligation("C11")]
+    return _obligations() + [labels_obligation("C11"), selectors_obligation("C11"), effects_obligation("C11")]
